@@ -6,12 +6,13 @@ from harness.core import Result
 
 MANIFEST = dict(
     design_ref="DESIGN.md §6 Group O / C04",
-    text="Coq theorems C04_fifo / C04_callback_justified / C04_at_most_once / C04_dispatch_complete over every label list of the "
-         "observer LTS (Model/Observer.v): per watch dequeued ++ queued-part-of-queue = queued (minus puts coalesced into an "
-         "identical last queue element), a callback happens only for the event in dispatch, to a handler of the snapshot taken "
-         "under the lock that is still registered at its turn, at most once per dispatch, and a dispatch ends only when every "
-         "handler of the snapshot had its turn. The model is tied to /repo by lock-step replay of real BaseObserver runs "
-         "(scripted emitters, recording handlers with re-entrant calls, deterministic scheduler) on every run; the property "
+    text="Coq theorems over every label list of the observer LTS (Model/Observer.v): C04_full (what handler h received for "
+         "watch w is exactly, in order, the dequeued events of w in whose dispatch h had its turn while registered; dequeued = the "
+         "dispatches of w), C04_exactly_once (every finished dispatch gave each handler of its snapshot exactly one turn and nobody "
+         "else one; a dispatch ends only when complete), C04_fifo (dequeued ++ queued part of the queue = queued), "
+         "C04_coalesce_only_identical_last, C04_never_foreign, C04_callback_justified, C04_callback_under_lock (callbacks only by the "
+         "dispatcher thread while it holds the observer lock). The model is tied to /repo by lock-step replay of real BaseObserver "
+         "runs (scripted emitters, recording handlers with re-entrant calls, deterministic scheduler) on every run; the property "
          "text itself is evaluated on the same runs by an oracle that uses only the observation log.",
     note="Trusted: Coq kernel; CPython/threading/queue.Queue semantics as implemented by the scheduler twins; SkipRepeatsQueue "
          "itself (C16). Interleavings are sampled (random, and exhaustive under 2 pre-emptions in the thorough tier).",
